@@ -236,7 +236,20 @@ func actorJSON(s *scenario) {
 	}
 }
 
+func actorPush(s *scenario) {
+	defer notePanic("push")
+	r := s.rnd(9)
+	formats := []string{"statsd", "graphite", "collectd"}
+	for i := 0; i < s.n/4+2; i++ {
+		if err := s.exp.VerifWriteSocketMetrics(io.Discard, formats[i%len(formats)]); err != nil {
+			noteFault("push", err)
+		}
+		pause(r)
+	}
+}
+
 var actors = map[string]func(*scenario){
+	"push": actorPush,
 	"vm": actorVM, "vm2": actorVM2, "gc": actorGc, "reload": actorReload,
 	"prom": actorProm, "varz": actorVarz, "graphite": actorGraphite, "json": actorJSON,
 }
